@@ -27,6 +27,10 @@ pub enum CollState {
     Isolated,
     Stale,
     InitLimit,
+    /// collateral-value cap active on a bank whose asset share value is 1.25
+    InitLimitShareValue,
+    /// staked collateral (forged StakedWithPythPush bank, pool exchange rate 1.08), SOL-tagged debt banks
+    Staked,
 }
 
 #[derive(Clone, Copy, Debug, PartialEq, Eq, serde::Serialize, serde::Deserialize)]
@@ -38,6 +42,10 @@ pub enum Emode {
     TwoLiabsMin,
     /// two borrowed banks, only one lists the collateral's tag: no benefit
     TwoLiabsDisjoint,
+    /// two borrowed banks, the second has no e-mode table at all and sorts before the first
+    TwoLiabsPlainKeyAbove,
+    /// ... and sorts after the first
+    TwoLiabsPlainKeyBelow,
 }
 
 #[derive(Clone, Debug, serde::Serialize, serde::Deserialize)]
@@ -102,11 +110,25 @@ pub fn build(c: &Cfg, tag: &str) -> Option<Built> {
     let mut c2cfg = BankCfg::default();
     c2cfg.asset_weight_init = I80F48::from_num(0.25);
     c2cfg.asset_weight_maint = I80F48::from_num(0.5);
+    if c.state == CollState::Staked {
+        lcfg.asset_tag = marginfi_type_crate::constants::ASSET_TAG_SOL;
+    }
+    // the second debt bank's address relative to the first decides the order in which the risk
+    // engine meets them: pick a label whose derived key sorts as the configuration asks
+    let l_key = world::key(&format!("C04{tag}:bank:L"));
+    let l2_label = match c.emode {
+        Emode::TwoLiabsPlainKeyAbove | Emode::TwoLiabsPlainKeyBelow => {
+            let want_above = c.emode == Emode::TwoLiabsPlainKeyAbove;
+            (0..100_000).map(|i| format!("L2v{i}")).find(|l| (world::key(&format!("C04{tag}:bank:{l}")) > l_key) == want_above).unwrap_or_else(|| panic!("no label for tag {tag} above={want_above} l_key={l_key}"))
+        }
+        _ => "L2".to_string(),
+    };
+    let coll_mint = if c.state == CollState::Staked { MintSpec::spl("c04c", 9) } else { MintSpec::spl("c04c", 6) };
     let mut banks = vec![
-        bank_spec("C", MintSpec::spl("c04c", 6), c.price_e8, c.ema, c.conf_pp, ccfg),
+        bank_spec("C", coll_mint, c.price_e8, c.ema, c.conf_pp, ccfg),
         bank_spec("L", MintSpec::spl("c04l", 9), 2_500_000_000, (1, 1), c.liab_conf_pp, lcfg.clone()),
         bank_spec("C2", MintSpec::spl("c04c2", 8), 300_000_000, (1, 1), 0, c2cfg),
-        bank_spec("L2", MintSpec::spl("c04l2", 6), 100_000_000, (1, 1), 0, lcfg),
+        bank_spec(&l2_label, MintSpec::spl("c04l2", 6), 100_000_000, (1, 1), 0, lcfg),
     ];
     if c.many {
         for i in 0..12 {
@@ -118,11 +140,21 @@ pub fn build(c: &Cfg, tag: &str) -> Option<Built> {
     }
     let (w, mut s) = build_world(&WorldSpec::new(&format!("C04{tag}"), banks, &["u0", "seeder"]));
     let g = w.group;
+    if c.state == CollState::Staked {
+        // pool exchange rate 1.08: delegated stake = 1.08 x LST supply + the permanent 1 SOL
+        let supply = u64::from_le_bytes(s.get(&w.banks[0].mint).unwrap().data[36..44].try_into().unwrap());
+        world::make_staked_bank(&mut s, &w, 0, (supply as u128 * 108 / 100) as u64 + 1_000_000_000);
+    }
     let tx = |s: &mut Store, i: crate::svm::Ix, signer: solana_program::pubkey::Pubkey| process_tx(s, &Tx::one(i, &[signer])).ok();
     // liquidity
     for b in 0..w.banks.len() {
+        if c.state == CollState::Staked && b == 2 {
+            // a default-tagged bank cannot share an account with staked collateral
+            continue;
+        }
         let amt = 1_000_000u64 * 10u64.pow(w.banks[b].decimals as u32);
         if !act::apply(&w, &mut s, &Action::Deposit { u: 1, b, amt, up_to_limit: None }).committed {
+            if std::env::var("VERIF_C04_DEBUG").is_ok() { eprintln!("c04 build failed at line 153: {:?}", c); }
             return None;
         }
     }
@@ -130,24 +162,28 @@ pub fn build(c: &Cfg, tag: &str) -> Option<Built> {
     let (ci, li, c2i, l2i) = (0usize, 1usize, 2usize, 3usize);
     if c.emode != Emode::Off {
         if !tx(&mut s, ix::configure_bank_emode(g, w.roles.emode, w.banks[ci].key, 7, entries(&[])), w.roles.emode) {
+            if std::env::var("VERIF_C04_DEBUG").is_ok() { eprintln!("c04 build failed at line 160: {:?}", c); }
             return None;
         }
         let e_main = match c.emode {
-            Emode::Raises | Emode::TwoLiabsMin | Emode::TwoLiabsDisjoint => entry(7, 0.9, 0.94),
+            Emode::Raises | Emode::TwoLiabsMin | Emode::TwoLiabsDisjoint | Emode::TwoLiabsPlainKeyAbove | Emode::TwoLiabsPlainKeyBelow => entry(7, 0.9, 0.94),
             Emode::BelowBank => entry(7, 0.1, 0.2),
             Emode::Off => unreachable!(),
         };
         if !tx(&mut s, ix::configure_bank_emode(g, w.roles.emode, w.banks[li].key, 0, entries(&[e_main])), w.roles.emode) {
+            if std::env::var("VERIF_C04_DEBUG").is_ok() { eprintln!("c04 build failed at line 168: {:?}", c); }
             return None;
         }
         match c.emode {
             Emode::TwoLiabsMin => {
                 if !tx(&mut s, ix::configure_bank_emode(g, w.roles.emode, w.banks[l2i].key, 0, entries(&[entry(7, 0.7, 0.94)])), w.roles.emode) {
+                    if std::env::var("VERIF_C04_DEBUG").is_ok() { eprintln!("c04 build failed at line 173: {:?}", c); }
                     return None;
                 }
             }
             Emode::TwoLiabsDisjoint => {
                 if !tx(&mut s, ix::configure_bank_emode(g, w.roles.emode, w.banks[l2i].key, 0, entries(&[entry(9, 0.9, 0.94)])), w.roles.emode) {
+                    if std::env::var("VERIF_C04_DEBUG").is_ok() { eprintln!("c04 build failed at line 178: {:?}", c); }
                     return None;
                 }
             }
@@ -158,10 +194,12 @@ pub fn build(c: &Cfg, tag: &str) -> Option<Built> {
     let one_c = 10u64.pow(w.banks[ci].decimals as u32) as u128;
     let coll_amt = (1000u128 * one_c * 100_000_000 / c.price_e8 as u128) as u64 + 7;
     if !c.no_main && !act::apply(&w, &mut s, &Action::Deposit { u: 0, b: ci, amt: coll_amt, up_to_limit: None }).committed {
+        if std::env::var("VERIF_C04_DEBUG").is_ok() { eprintln!("c04 build failed at line 188: {:?}", c); }
         return None;
     }
     if c.second {
         if !act::apply(&w, &mut s, &Action::Deposit { u: 0, b: c2i, amt: 100 * 10u64.pow(8) + 3, up_to_limit: None }).committed {
+            if std::env::var("VERIF_C04_DEBUG").is_ok() { eprintln!("c04 build failed at line 192: {:?}", c); }
             return None;
         }
     }
@@ -169,13 +207,15 @@ pub fn build(c: &Cfg, tag: &str) -> Option<Built> {
         for b in 4..w.banks.len() {
             let amt = 20 * 10u64.pow(w.banks[b].decimals as u32) + b as u64;
             if !act::apply(&w, &mut s, &Action::Deposit { u: 0, b, amt, up_to_limit: None }).committed {
+                if std::env::var("VERIF_C04_DEBUG").is_ok() { eprintln!("c04 build failed at line 199: {:?}", c); }
                 return None;
             }
         }
     }
-    if matches!(c.emode, Emode::TwoLiabsMin | Emode::TwoLiabsDisjoint) {
+    if matches!(c.emode, Emode::TwoLiabsMin | Emode::TwoLiabsDisjoint | Emode::TwoLiabsPlainKeyAbove | Emode::TwoLiabsPlainKeyBelow) {
         // a small second debt so that two borrowed banks take part in the e-mode reconciliation
         if !act::apply(&w, &mut s, &Action::Borrow { u: 0, b: l2i, amt: 1_000_000 }).committed {
+            if std::env::var("VERIF_C04_DEBUG").is_ok() { eprintln!("c04 build failed at line 206: {:?}", c); }
             return None;
         }
     }
@@ -193,6 +233,7 @@ pub fn build(c: &Cfg, tag: &str) -> Option<Built> {
         CollState::ReduceOnly => {
             let opt = BankConfigOpt { operational_state: Some(BankOperationalState::ReduceOnly), ..Default::default() };
             if !tx(&mut s, ix::configure_bank(g, w.roles.admin, w.banks[ci].key, opt), w.roles.admin) {
+                if std::env::var("VERIF_C04_DEBUG").is_ok() { eprintln!("c04 build failed at line 223: {:?}", c); }
                 return None;
             }
         }
@@ -203,9 +244,18 @@ pub fn build(c: &Cfg, tag: &str) -> Option<Built> {
             let t = 1_700_000_000i64 - 100_000;
             a.data[off..off + 8].copy_from_slice(&t.to_le_bytes());
         }
+        CollState::InitLimitShareValue => {
+            world::edit_bank(&mut s, &w.banks[ci].key, |b| b.asset_share_value = (I80F48::from(b.asset_share_value) * I80F48::from_num(1.25)).into());
+            // $1,251,250 of deposits by value; a cap between the share count's and the amount's worth
+            if !tx(&mut s, ix::configure_bank_limits_only(g, w.roles.limit, w.banks[ci].key, None, None, Some(1_100_000)), w.roles.limit) {
+                if std::env::var("VERIF_C04_DEBUG").is_ok() { eprintln!("c04 build failed at line 237: {:?}", c); }
+                return None;
+            }
+        }
         CollState::InitLimit => {
             // the bank holds $1,001,000 of deposits; cap the value counted for initial margin at $400,000
             if !tx(&mut s, ix::configure_bank_limits_only(g, w.roles.limit, w.banks[ci].key, None, None, Some(400_000)), w.roles.limit) {
+                if std::env::var("VERIF_C04_DEBUG").is_ok() { eprintln!("c04 build failed at line 243: {:?}", c); }
                 return None;
             }
         }
@@ -424,6 +474,23 @@ pub fn configs(tier: Tier) -> Vec<Cfg> {
                                     }
                                 }
                             }
+                        }
+                    }
+                }
+            }
+        }
+    }
+    // further collateral states and e-mode orders on a sub-product
+    for &w_init in &[0.5f64, 0.8] {
+        for &(price_e8, ema) in &[(100_000_000i64, (1i64, 1i64)), (10_000_000_000, (1, 2)), (10_000_000_000, (11, 10))] {
+            for &conf_pp in &[0u64, 472] {
+                for withdraw in [false, true] {
+                    for &state in &[CollState::InitLimitShareValue, CollState::Staked] {
+                        v.push(Cfg { w_init, price_e8, ema, conf_pp, state, second: false, liab_w: 1.25, liab_conf_pp: 0, emode: Emode::Off, withdraw, many: false, no_main: false });
+                    }
+                    for &emode in &[Emode::TwoLiabsPlainKeyAbove, Emode::TwoLiabsPlainKeyBelow] {
+                        for second in [false, true] {
+                            v.push(Cfg { w_init, price_e8, ema, conf_pp, state: CollState::Normal, second, liab_w: 1.25, liab_conf_pp: 0, emode, withdraw, many: false, no_main: false });
                         }
                     }
                 }
